@@ -15,6 +15,7 @@ fn main() {
         "sparql" => sv::sparql::main(&args[2..]),
         "rt" => sv::rt::main(&args[2..]),
         "loader" => sv::loader::main(&args[2..]),
+        "native" => sv::native::main(&args[2..]),
         _ => {
             eprintln!("unknown family {fam}");
             std::process::exit(2);
